@@ -2,6 +2,7 @@ import Driver.Bls
 import Driver.Layout
 import Driver.Values
 import Driver.Wire
+import Driver.Namespace
 /-! Correspondence driver: `lake env lean --run Driver/Main.lean <suite>`; one JSON case per input line,
     one JSON outcome per output line (`{"id":…, …}` or `{"id":…,"err":…}`). -/
 open Lean
@@ -14,6 +15,7 @@ def dispatch (suite : String) (j : Json) : Except String Json :=
   | "cost" => DriverLayout.handleCost j
   | "values" => DriverValues.handle j
   | "wire" => DriverWire.handle j
+  | "ns" => DriverNs.handle j
   | s => throw s!"unknown suite {s}"
 
 partial def loop (suite : String) (h : IO.FS.Stream) (out : IO.FS.Stream) : IO Unit := do
